@@ -153,6 +153,14 @@ class Contract:
             st.oblige(f"{ip.task.name}/{where}", pre if isinstance(pre, (SBool, bool)) else mk_bool(V._zb(pre)), "call-pre")
         else:
             st.assume(pre if isinstance(pre, (SBool, bool)) else mk_bool(V._zb(pre)))
+        # recursion: a contract with `decreases` (a non-negative integer measure of (self, a) / (a)) applied inside
+        # the verification of its own target is a recursive call — the measure must drop strictly below the
+        # measure of the caller's own entry arguments (termination of the recursion; without `decreases` a
+        # recursive call is only partially correct, as before)
+        dec = getattr(self, "decreases", None)
+        if dec is not None and check_pre and getattr(ip.task, "c", None) is self and getattr(ip.task, "entry_measure", None) is not None:
+            m = dec(self_obj, a) if self_obj is not None else dec(a)
+            st.oblige(f"{ip.task.name}/decreases@{f.ref.qualname}:{(site or '').split(':')[-1]}", both(V._cmp(">=", m, 0), V._cmp("<", m, ip.task.entry_measure)), "termination")
         # exceptional outcomes
         excs = list(self.raises)
         riff = getattr(self, "raises_iff", None)
@@ -291,7 +299,7 @@ def contract(target, property=None, **kw):  # noqa: A002
         ns.update(kw)
         ns["target"] = target
         ns["property"] = property
-        for fn in ("requires", "ensures", "on_raise", "pure_spec", "native_call", "make_self", "observe", "effects", "invariant", "ensures_callee", "on_raise_callee", "effects_raise", "setup", "call_real", "missing_field", "comprehension_sum", "decode_model"):
+        for fn in ("requires", "ensures", "on_raise", "pure_spec", "native_call", "make_self", "observe", "effects", "invariant", "ensures_callee", "on_raise_callee", "effects_raise", "setup", "call_real", "missing_field", "comprehension_sum", "decode_model", "decreases", "binop"):
             if fn in ns and inspect.isfunction(ns[fn]):
                 ns[fn] = staticmethod(ns[fn])
         C = type(cls.__name__, (Contract,), ns)
@@ -335,11 +343,16 @@ class VerifyTask:
         self.config = config or Config()
         if c.max_paths:
             self.config.max_paths = c.max_paths
+        if getattr(c, "branch_timeout_ms", None):
+            # feasibility checks at branches: an `unknown` answer keeps the branch (sound), so a contract whose
+            # path conditions carry quantifiers may ask for a shorter budget per check
+            self.config.branch_timeout_ms = c.branch_timeout_ms
         self.ref = fn_override or SRC.resolve(c.target)
         self.used_contracts: set = set()
         self.inlined: set = set()
         self.bv_width = c.bv_width
         self.old_view = None
+        self.entry_measure = None
         self._loops = None
 
     # ---- services for the interpreter
@@ -500,6 +513,8 @@ class VerifyTask:
         if inv is not None and self_obj is not None:
             st.assume(inv(self_obj))
         st.cover(f"{self.name}/cover@pre")
+        dec = getattr(c, "decreases", None)
+        self.entry_measure = (dec(self_obj, a) if self_obj is not None else dec(a)) if dec is not None else None
         f = FnVal(self.ref, None, None, self.defcls())
         f.top_level = True
         args = ([self_obj] if self_obj is not None else []) + []
